@@ -139,16 +139,17 @@ def driver_path():
 
 # ---------------------------------------------------------------- Rust side
 
-def harness_build(name, features=None, extra_env=None):
-    """cargo build the harness crate /verif/harness/<name> against /repo's working tree. Returns (rc, out, binpath)."""
+def harness_build(name, features=None, extra_env=None, variant=None, no_default=False):
+    """cargo build the harness crate /verif/harness/<name> against /repo's working tree. Returns (rc, out, binpath).
+    `variant` selects a separate target directory (reduced feature configurations, C19)."""
     crate = os.path.join(VERIF, "harness", name)
-    target = os.path.join(CACHE, "target-" + name)
+    target = os.path.join(CACHE, "target-" + name + ("-" + variant if variant else ""))
     env = env_offline()
     env["CARGO_TARGET_DIR"] = target
     if extra_env:
         env.update(extra_env)
     lock_src = os.path.join(REPO, "Cargo.lock")
-    with Lock("cargo-" + name):
+    with Lock("cargo-" + name + ("-" + variant if variant else "")):
         if name == "world":
             # dispatch tables over the login opcode enums are re-derived from /repo's current sources
             sys.path.insert(0, os.path.join(VERIF, "tools"))
@@ -159,6 +160,8 @@ def harness_build(name, features=None, extra_env=None):
         if not os.path.exists(os.path.join(crate, "Cargo.lock")) and os.path.exists(lock_src):
             subprocess.run(["cp", lock_src, os.path.join(crate, "Cargo.lock")])
         cmd = ["cargo", "build", "--offline"]
+        if no_default:
+            cmd.append("--no-default-features")
         if features:
             cmd += ["--features", features]
         rc, out = sh(cmd, cwd=crate, timeout=7200, env=env)
